@@ -132,5 +132,17 @@ CLAIMED.update({
             "contracts over constructed-term strings (pyvc + z3)", "DESIGN.md 3 (C15), 9"),
 })
 
+CLAIMED.update({
+    "C18": ("proof", "two parts. (1) BOUNDED, not proved: parse_tag (regular expressions with capture groups, outside the engine) is compared with "
+            "a hand-written oracle parser of the documented address grammar on an exhaustive enumeration of that grammar (6e4 addresses in the "
+            "quick tier, ~1e7 in the thorough tier: all file numbers 0..257, elements 0..257, bits, binary bit numbers 0..4199, counts, cases, "
+            "sub-element mnemonics, over-long digit runs and junk). (2) PROVED for every value parse_tag can return: _read_tag / _write_tag emit "
+            "the protected typed logical read / masked write with exactly the byte size, file number, file type code, element and sub-element "
+            "of the address, the bit mask 1 << bit (0xFFFF for words) and the encoded data; replies decode to the word, the {count} list, "
+            "the addressed bit, or PRE / ACC; non-zero STS gives a falsy Tag; a lemma over the target's masked-write rule shows a bit write "
+            "changes only that bit", "contracts given parse_tag's postcondition (pyvc + z3) + exhaustive grammar enumeration for the regex part",
+            "DESIGN.md 3 (C18), 9"),
+})
+
 if __name__ == "__main__":
     main()
